@@ -1,7 +1,12 @@
 /- The fact values the C03 theorems are proved for (and the oracle runs with). -/
 import EinoV.Model.C03
+import EinoV.Model.C03Loop
 namespace EinoV.Expected.C03
 def facts : EinoV.C03.Facts :=
   { waitOneRefills := true, refillOnErrorPath := true, doneCap := 1, pushUnderLock := true,
     firstTaskInline := true, inlineRemovesFirst := true }
+/-- `submit` pre-processes every task before anything is started; the interrupt path of the
+    run loop collects with `waitAll` -/
+def loopFacts : EinoV.C03.LoopFacts :=
+  { submitPreprocessesFirst := true, interruptPathWaitsAll := true }
 end EinoV.Expected.C03
